@@ -181,7 +181,7 @@ func c06Defs() []c06Scenario {
 		{Name: "tiny-put-vs-put", Cfg: "tiny", Pre: []string{"put:a:0", "bg"}, Clients: []c06Client{{"put:a:1"}, {"put:b:2", "get:a"}}},
 		{Name: "tiny-del-vs-get", Cfg: "tiny", Pre: []string{"put:a:0", "bg"}, Clients: []c06Client{{"del:a"}, {"get:a"}}},
 		// a burst: the table fills again and again while one background flush is still under way
-		{Name: "tiny-burst", Cfg: "tiny", Clients: []c06Client{{"put:a:1", "put:b:2", "put:a:3", "put:b:4", "get:a"}}},
+		{Name: "tiny-burst", Cfg: "tiny", Clients: []c06Client{{"put:a:1", "put:b:2", "put:b:3", "put:b:4", "get:a"}}}, // the read goes to the oldest table of the burst
 		{Name: "flush-vs-put-get", Cfg: "big", Pre: []string{"put:a:0", "switch"}, Clients: []c06Client{{"flush"}, {"put:a:1"}, {"get:a"}}},
 		{Name: "flush-active-vs-put", Cfg: "big", Pre: []string{"put:a:0"}, Clients: []c06Client{{"flush"}, {"put:a:1", "get:a"}}},
 		// two writes can fall into any window of a rotation, a third comes after it
